@@ -104,7 +104,11 @@ class Check:
       ds = []
       f = fi
       # the function itself and the functions it is nested in (a closure is judged with its builder)
-      cur = shapes.distance(fi.module.relpath, fi.qualname, fi.node)
+      raw = fi.module.__dict__.setdefault('_raw_funcs', None)
+      if raw is None:
+        raw = fi.module.__dict__['_raw_funcs'] = shapes.raw_functions(fi.module.src)
+      node = raw.get(fi.qualname)
+      cur = shapes.distance(fi.module.relpath, fi.qualname, node) if node is not None else None
       cache[k] = cur
     return cache[k]
 
